@@ -28,6 +28,24 @@ class Recorder(io.BytesIO):
         return super().write(data)
 
 
+class FaultyRecorder(io.BytesIO):
+    """a destination whose `fail_at`-th write stores only a fraction of the data and raises OSError (disk full, EIO);
+    later writes succeed again, as when the caller's clean-up runs after the failure"""
+
+    def __init__(self, initial, fail_at, frac):
+        super().__init__(initial)
+        self.fail_at, self.frac, self.calls = fail_at, frac, 0
+
+    def write(self, data):
+        data = bytes(data)
+        k = self.calls
+        self.calls += 1
+        if k == self.fail_at:
+            super().write(data[:int(len(data) * self.frac)])
+            raise OSError(28, "No space left on device (injected)")
+        return super().write(data)
+
+
 def apply_prefix(initial, log, k):
     """destination content after the first k bytes of the write stream"""
     buf = bytearray(initial)
@@ -180,6 +198,7 @@ def explore(ck, q, n_sessions, lines, meta):
         intended = las.points.array.tobytes()
         initial = b""
         rec = Recorder()
+        session = None
         if kind == "oneshot":
             las.write(rec)
         elif kind == "chunked":
@@ -189,14 +208,17 @@ def explore(ck, q, n_sessions, lines, meta):
             if keep != n:
                 ck.count("chunked_filtered_copy")
                 intended = las.points.array[:keep].tobytes()
-            w = LasWriter(rec, las.header, closefd=False)
-            pos = 0
-            for p in c04.rand_partition(ck.rng, keep):
-                w.write_points(las.points[pos:pos + p])
-                pos += p
-            if minor >= 4 and las.evlrs is not None:
-                w.write_evlrs(las.evlrs)
-            w.close()
+            parts_ = c04.rand_partition(ck.rng, keep)
+
+            def session(dest, las=las, parts_=parts_, minor=minor):
+                with LasWriter(dest, las.header, closefd=False) as w:
+                    pos = 0
+                    for p in parts_:
+                        w.write_points(las.points[pos:pos + p])
+                        pos += p
+                    if minor >= 4 and las.evlrs is not None:
+                        w.write_evlrs(las.evlrs)
+            session(rec)
         else:
             b0 = io.BytesIO()
             las.write(b0)
@@ -206,10 +228,12 @@ def explore(ck, q, n_sessions, lines, meta):
             rec.seek(0)
             m = ck.rng.choice([1, 2, 270])
             extra = fio.raw_records(ck.rng, size, m)
-            with laspy.open(rec, mode="a", closefd=False) as ap:
-                half = (m // 2) * size
-                for part in (extra[:half], extra[half:]):
-                    ap.append_points(c06.rec_of(las, part))
+            def session(dest, las=las, extra=extra, m=m, size=size):
+                with laspy.open(dest, mode="a", closefd=False) as ap:
+                    half = (m // 2) * size
+                    for part in (extra[:half], extra[half:]):
+                        ap.append_points(c06.rec_of(las, part))
+            session(rec)
             intended = intended + extra
         final = rec.getvalue()
         # the write stream has the shape the crash theorems assume (Crash.writerLog / appenderLog): one sequential
@@ -258,6 +282,25 @@ def explore(ck, q, n_sessions, lines, meta):
             inp = dict(inp0, truncate=t, what="truncate")
             ck.case(("trunc", si, t), nontrivial=0 < t < L)
             check_image(ck, final[:t], intended, size, inp, f"{kind} file truncated to {t} of {L} bytes", lines, meta)
+        # a write that fails (storing none, some or nearly all of its bytes) and raises, after which the caller's clean-up runs
+        # (the with-block closes the session): what is left must still read as a prefix of the points being stored, or fail
+        if session is not None and rec.log:
+            for fail_at in sorted({0, len(rec.log) - 1, ck.rng.randrange(len(rec.log)), ck.rng.randrange(len(rec.log))}):
+                frac = ck.rng.choice([0.0, 0.4, 0.99])
+                dest = FaultyRecorder(initial, fail_at, frac)
+                dest.seek(0)
+                try:
+                    session(dest)
+                    outcome = "completed"
+                except OSError:
+                    outcome = "OSError"
+                except Exception as e:
+                    outcome = type(e).__name__
+                ck.count("failed_write_then_cleanup:" + outcome)
+                inp = dict(inp0, what="failed-write", failing_write=fail_at, stored_fraction=frac, session_outcome=outcome)
+                ck.case(("fault", si, fail_at, frac), nontrivial=True)
+                check_image(ck, dest.getvalue(), intended, size, inp,
+                            f"{kind} session whose write #{fail_at} stored {int(frac * 100)}% of its bytes and raised OSError, then was closed by its with-block", lines, meta)
         if si < 3:
             ck.sample(dict(inp0, crash_points=len(cuts), truncations=len(lens), stream_bytes=sum(len(d) for _, d in rec.log)))
 
